@@ -29,7 +29,8 @@ def main():
         print(r.stdout[-3000:])
         return 1
     impl = os.path.join(TARGET, 'debug', 'implrunner')
-    env2 = dict(os.environ, VERIF_IMPL=impl, LLVM_PROFILE_FILE=os.path.join(COV, 'p-%p-%m.profraw'))
+    env2 = dict(os.environ, VERIF_IMPL=impl, LLVM_PROFILE_FILE=os.path.join(COV, 'p-%p-%m.profraw'),
+                VERIF_EVIDENCE_DIR=os.path.join(VERIF, 'work', 'cov_evidence'))   # the instrumented run is not the registered check
     for p in props:
         r = sh('%s/bin/check %s --tier quick 2>&1 | tail -1' % (VERIF, p), cwd=VERIF, env=env2)
         print(r.stdout.strip())
